@@ -311,20 +311,19 @@ def r10e(ctx):
             ctx.report("R10e", f, flush[0], f"flush target {tgt}", "the parsed parts are flushed into a container that is not the clone's")
     g = repo.func("XmlPart.clone", "getter")
     reset = set()
-    for n in walk_no_nested(g.node):
-        if isinstance(n, ast.If):
-            names = []
-            for cmp_ in ast.walk(n.test):
-                if isinstance(cmp_, ast.Compare):
-                    for c in cmp_.comparators:
-                        v = repo.fold(c, g.module)
-                        if isinstance(v, str):
-                            names.append(v)
-                        elif isinstance(v, (tuple, list, set)):
-                            names += [x for x in v if isinstance(x, str)]
-            if any(isinstance(c, ast.Call) and call_name(c) == "setattr" and len(c.args) == 3 and isinstance(c.args[2], ast.Constant) and c.args[2].value is None
-                   for s in n.body for c in ast.walk(s)):
-                reset |= set(names)
+    # which attribute names are given None in the clone: every setattr(clone, name, None) with the `name == "…"` / `name in (…)` tests in force
+    # at that call (polarity-aware, so the orientation of the if/elif chain does not matter)
+    for c in walk_no_nested(g.node):
+        if not (isinstance(c, ast.Call) and call_name(c) == "setattr" and len(c.args) == 3 and isinstance(c.args[2], ast.Constant) and c.args[2].value is None):
+            continue
+        for t, pol in structural_guards(c, stop=g.node):
+            if not pol or not isinstance(t, ast.Compare) or len(t.ops) != 1 or not isinstance(t.ops[0], (ast.Eq, ast.In)):
+                continue
+            v = repo.fold(t.comparators[0], g.module)
+            if isinstance(v, str):
+                reset.add(v)
+            elif isinstance(v, (tuple, list, set, frozenset)):
+                reset |= {x for x in v if isinstance(x, str)}
     root_reset = "_XmlPart__root" in reset
     tree_reset = "_XmlPart__tree" in reset
     ok = root_reset and not tree_reset
